@@ -377,6 +377,37 @@ class Precondition:
         }
 
 
+def scope_renaming(
+    quantified_parameter: str, old_to_new_param_names: Dict[str, str]
+) -> Tuple[Dict[str, str], str]:
+    """Restricts a renaming of an action's parameters to the scope of a quantifier.
+
+    The quantified variable is bound inside the scope: an action parameter of the same name is not visible there
+    and is not renamed, and when a parameter is renamed onto the quantified variable's name the variable moves out
+    of the way so that it does not capture the parameter.
+
+    :param quantified_parameter: the variable that the quantifier binds.
+    :param old_to_new_param_names: the renaming of the action's parameters.
+    :return: the renaming to apply inside the scope and the name of the quantified variable afterwards.
+    """
+    scoped_renaming = {
+        old_name: new_name
+        for old_name, new_name in old_to_new_param_names.items()
+        if old_name != quantified_parameter
+    }
+    if quantified_parameter not in scoped_renaming.values():
+        return scoped_renaming, quantified_parameter
+
+    used_names = set(old_to_new_param_names) | set(old_to_new_param_names.values())
+    index = 0
+    while f"{quantified_parameter}_{index}" in used_names:
+        index += 1
+
+    renamed_quantified_parameter = f"{quantified_parameter}_{index}"
+    scoped_renaming[quantified_parameter] = renamed_quantified_parameter
+    return scoped_renaming, renamed_quantified_parameter
+
+
 class UniversalPrecondition(Precondition):
     """Class representing a universally quantified precondition."""
 
@@ -406,6 +437,16 @@ class UniversalPrecondition(Precondition):
             f"(forall ({self.quantified_parameter} - {self.quantified_type.name})"
             f"\n\t{internal_condition_string})"
         )
+
+    def change_signature(self, old_to_new_param_names: Dict[str, str]) -> None:
+        """Change the signature of the quantified condition, respecting the scope of the quantified variable.
+
+        :param old_to_new_param_names: the renaming of the action's parameters.
+        """
+        scoped_renaming, self.quantified_parameter = scope_renaming(
+            self.quantified_parameter, old_to_new_param_names
+        )
+        super().change_signature(scoped_renaming)
 
     def __hash__(self) -> int:
         return hash(str(self))
